@@ -1,6 +1,657 @@
-//! Property C04: correspondence and oracle (stub: nothing built yet).
-use crate::report::Report;
+//! Property C04: retain_lines keeps surviving code on its original line.
+//!
+//! (1) state-machine correspondence on rule-transformed programs: the writer trace of the real
+//!     generator after real rule pipelines (tokens without line, symbols, padding, uncomment)
+//!     is replayed in the Lean model (`C03.run`): output, line counter, flag and inserted-byte
+//!     counters must agree; the number of line-bearing contents that do not start on their
+//!     recorded line is computed from the real trace and by the model (`c04.lines`) and must
+//!     agree; where the hypothesis `budgetOk` of theorem `budget_lands` holds it must be 0.
+//! (2) oracle: programs in scrambled multi-line layouts whose literals / globals / calls are
+//!     unique markers, through (a) subsets and orders of the 13 default rules, (b) remove_spaces
+//!     followed by line-neutral rules, (c) append_text_comment at the start (known shift):
+//!     every marker found in the output text must be on its input line (+ shift).
+use super::c03::{
+    compare_run, encode_trace, lay_out, model_replay, real_process, Acc, Layout, ProgGen,
+};
+use crate::model::Model;
+use crate::report::{known_findings, Report, Violation};
+use crate::rng::Rng;
+use darklua_core::verif_hooks::TraceOp;
+use serde_json::{json, Value};
+use std::collections::BTreeMap;
 
-pub fn run(report: &mut Report, _replay: Option<&str>) {
-    report.notes.push("C04: no harness yet".to_owned());
+// ------------------------------------------------------------------------------------------
+// markers
+// ------------------------------------------------------------------------------------------
+
+fn is_word_byte(b: u8) -> bool {
+    b.is_ascii_alphanumeric() || b == b'_'
+}
+
+/// All marker occurrences of a text: (marker, 1-based line). Markers: `g<k>` `m<k>` `v<k>`
+/// identifiers, `1<6 digits>` numbers, `'s<k>'` / `"s<k>"` strings — whole tokens only.
+pub fn find_markers(text: &str) -> Vec<(String, usize)> {
+    let b = text.as_bytes();
+    let mut out = Vec::new();
+    let mut line = 1usize;
+    let mut i = 0usize;
+    while i < b.len() {
+        let c = b[i];
+        if c == b'\n' {
+            line += 1;
+            i += 1;
+            continue;
+        }
+        let boundary_before = i == 0 || !(is_word_byte(b[i - 1]) || b[i - 1] == b'.' && c.is_ascii_digit());
+        if (c == b'\'' || c == b'"') && i + 2 < b.len() && b[i + 1] == b's' {
+            let mut j = i + 2;
+            while j < b.len() && b[j].is_ascii_digit() {
+                j += 1;
+            }
+            if j > i + 2 && j < b.len() && b[j] == c {
+                out.push((text[i + 1..j].to_owned(), line));
+                i = j + 1;
+                continue;
+            }
+        }
+        if boundary_before && is_word_byte(c) {
+            let mut j = i;
+            while j < b.len() && is_word_byte(b[j]) {
+                j += 1;
+            }
+            let word = &text[i..j];
+            let digits = |w: &str| !w.is_empty() && w.bytes().all(|x| x.is_ascii_digit());
+            let is_marker = (matches!(c, b'g' | b'm' | b'v') && digits(&word[1..]))
+                || (word.len() == 7 && c == b'1' && digits(word) && !(j < b.len() && b[j] == b'.'));
+            if is_marker {
+                out.push((word.to_owned(), line));
+            }
+            i = j;
+            continue;
+        }
+        i += 1;
+    }
+    out
+}
+
+// ------------------------------------------------------------------------------------------
+// rule pipelines
+// ------------------------------------------------------------------------------------------
+
+/// rules the property calls line-neutral (everything but group_local_assignment,
+/// convert_require which needs files, and append_text_comment which shifts)
+const LINE_NEUTRAL: &[&str] = &[
+    // Luau lowering
+    "remove_types", "remove_compound_assignment", "remove_continue", "remove_floor_division",
+    "remove_if_expression", "remove_interpolated_string", "convert_luau_number", "remove_method_call",
+    "remove_attribute",
+    // removal / injection
+    "remove_assertions", "remove_debug_profiling", "remove_comments", "remove_unused_variable",
+    "remove_nil_declaration", "remove_empty_do", "remove_unused_if_branch", "remove_unused_while",
+    "filter_after_early_return", "remove_function_call_parens", "remove_method_definition",
+    "{rule: 'inject_global_value', identifier: 'g3', value: true}",
+    // optional refactorings
+    "convert_index_to_field", "convert_local_function_to_assign", "convert_function_to_assignment",
+    "convert_square_root_call", "make_assignment_local", "compute_expression", "rename_variables",
+];
+
+fn rule_json(r: &str) -> String {
+    if r.starts_with('{') { r.to_owned() } else { format!("'{}'", r) }
+}
+
+fn config_of(rules: &[String]) -> String {
+    format!("{{rules: [{}]}}", rules.iter().map(|r| rule_json(r)).collect::<Vec<_>>().join(", "))
+}
+
+pub struct Pipeline {
+    pub kind: &'static str,
+    pub rules: Vec<String>,
+    /// lines every marker moves down by (append_text_comment at start)
+    pub shift: usize,
+}
+
+fn default_rule_names() -> Vec<String> {
+    darklua_core::rules::get_default_rules()
+        .iter()
+        .map(|r| r.get_name().to_owned())
+        .collect()
+}
+
+fn gen_pipeline(rng: &mut Rng, defaults: &[String]) -> Pipeline {
+    match rng.below(10) {
+        0 => Pipeline { kind: "default rules, default order", rules: defaults.to_vec(), shift: 0 },
+        1..=4 => {
+            // (a) subset in random order
+            let mut rules: Vec<String> = defaults.iter().filter(|_| rng.chance(1, 2)).cloned().collect();
+            if rules.is_empty() {
+                rules.push(defaults[rng.below(defaults.len())].clone());
+            }
+            rng.shuffle(&mut rules);
+            Pipeline { kind: "subset/order of default rules", rules, shift: 0 }
+        }
+        5..=7 => {
+            // (b) remove_spaces then line-neutral rules
+            let n = 1 + rng.below(6);
+            let mut rules = vec!["remove_spaces".to_owned()];
+            for _ in 0..n {
+                rules.push((*rng.pick(LINE_NEUTRAL)).to_owned());
+            }
+            Pipeline { kind: "remove_spaces + line-neutral rules", rules, shift: 0 }
+        }
+        _ => {
+            // (c) append_text_comment at start, alone or around other rules
+            let texts: &[(&str, usize)] = &[
+                ("hello", 1),
+                (" copyright 2026 ", 1),
+                ("two\\nlines", 4),
+                ("a\\nb\\nc\\n", 6),
+                ("with ]] inside\\nand more", 4),
+            ];
+            let (text, shift) = *rng.pick(texts);
+            let append = format!("{{rule: 'append_text_comment', text: '{}'}}", text);
+            let mut rules: Vec<String> = match rng.below(3) {
+                0 => vec![],
+                1 => defaults.to_vec(),
+                _ => {
+                    let mut r = vec!["remove_spaces".to_owned()];
+                    for _ in 0..rng.below(4) {
+                        r.push((*rng.pick(LINE_NEUTRAL)).to_owned());
+                    }
+                    r
+                }
+            };
+            let at = rng.below(rules.len() + 1);
+            rules.insert(at, append);
+            Pipeline { kind: "append_text_comment at start", rules, shift }
+        }
+    }
+}
+
+pub fn gen_marker_program(rng: &mut Rng) -> String {
+    let mut g = ProgGen::new(rng.fork(), 25 + rng.below(90) as i32);
+    g.markers = true;
+    g.typed = rng.chance(1, 4);
+    let depth = 1 + rng.below(3) as u32;
+    g.block(depth, false, true);
+    let toks = std::mem::take(&mut g.toks);
+    let layout = Layout {
+        newline: *rng.pick(&["\n", "\n", "\n", "\r\n"]),
+        comments: *rng.pick(&[0u32, 80, 200]),
+        breaks: *rng.pick(&[300u32, 500, 700]),
+        f7: 0,
+    };
+    lay_out(rng, &toks, &layout)
+}
+
+// ------------------------------------------------------------------------------------------
+// checks
+// ------------------------------------------------------------------------------------------
+
+/// Line-bearing non-empty contents of the real trace that were not written on their recorded
+/// line: (checked, displaced), using the real `current_line` at the content's `push_str`.
+fn real_displaced(trace: &[TraceOp]) -> (u64, u64) {
+    let mut checked = 0;
+    let mut displaced = 0;
+    let mut pending: Option<i64> = None;
+    for t in trace {
+        match t.op {
+            "token_content" => {
+                pending = if t.detail >= 0 && !t.text.is_empty() { Some(t.detail) } else { None };
+            }
+            "push_str" => {
+                if let Some(n) = pending.take() {
+                    checked += 1;
+                    if t.detail != n {
+                        displaced += 1;
+                    }
+                }
+            }
+            "token_end" => pending = None,
+            _ => {}
+        }
+    }
+    (checked, displaced)
+}
+
+struct Lines {
+    budget: bool,
+    monotone: bool,
+    checked: u64,
+    displaced: u64,
+    first: String,
+}
+
+fn model_lines(model: &mut Model, items: &[String]) -> Result<Lines, String> {
+    let answer = model.ask(&format!("c04.lines {}", items.join(" ")));
+    let p: Vec<&str> = answer.split(' ').collect();
+    if p.len() != 6 || p[0] != "ok" {
+        return Err(format!("model answered {:?}", answer));
+    }
+    Ok(Lines {
+        budget: p[1] == "1",
+        monotone: p[2] == "1",
+        checked: p[3].parse().map_err(|_| "bad number")?,
+        displaced: p[4].parse().map_err(|_| "bad number")?,
+        first: p[5].to_owned(),
+    })
+}
+
+/// The marker oracle on the real code alone: Some(description) if a marker is off its line.
+/// * a marker that occurs several times in the output (a rule cloned the node: the self argument
+///   of `remove_method_call`, the read of `remove_compound_assignment`, …) passes if one of the
+///   occurrences is on the expected line: the clones are new code;
+/// * `literals_recomputed`: the pipeline contains `compute_expression`, whose results are new
+///   literal nodes that may spell exactly like an operand (`'s1' or x` → `'s1'`): number and
+///   string markers are then not judged, identifier / call markers still are.
+fn marker_failure(code: &str, out: &str, shift: usize, literals_recomputed: bool) -> Option<String> {
+    marker_failures(code, out, shift, literals_recomputed).into_iter().next().map(|(_, what)| what)
+}
+
+fn marker_failures(code: &str, out: &str, shift: usize, literals_recomputed: bool) -> Vec<(String, String)> {
+    let mut failures = Vec::new();
+    let mut input_lines: BTreeMap<String, Vec<usize>> = BTreeMap::new();
+    for (m, l) in find_markers(code) {
+        input_lines.entry(m).or_default().push(l);
+    }
+    let mut output_lines: BTreeMap<String, Vec<usize>> = BTreeMap::new();
+    for (m, l) in find_markers(out) {
+        output_lines.entry(m).or_default().push(l);
+    }
+    for (m, ls_out) in &output_lines {
+        let literal = m.starts_with('s') || m.starts_with('1');
+        if literal && literals_recomputed {
+            continue;
+        }
+        if let Some(ls) = input_lines.get(m) {
+            if ls.len() == 1 && !ls_out.contains(&(ls[0] + shift)) {
+                failures.push((m.clone(), format!(
+                    "marker {} is on line {} of the input but on line(s) {:?} of the output (expected {})",
+                    m, ls[0], ls_out, ls[0] + shift
+                )));
+            }
+        }
+    }
+    failures
+}
+
+fn recomputes_literals(rules: &[String]) -> bool {
+    rules.iter().any(|r| r.contains("compute_expression"))
+}
+
+fn oracle_fails(code: &str, config: &str, shift: usize) -> Option<String> {
+    let (out, _) = real_process(code, config).ok()?;
+    marker_failure(code, &out, shift, config.contains("compute_expression"))
+}
+
+/// `function a.b:c(` somewhere in the text (over-approximation: a `:` between `function` and the
+/// next `(`).
+fn has_method_definition(code: &str) -> bool {
+    let mut rest = code;
+    while let Some(i) = rest.find("function") {
+        rest = &rest[i + 8..];
+        if let Some(j) = rest.find('(') {
+            if rest[..j].contains(':') {
+                return true;
+            }
+        }
+    }
+    false
+}
+
+/// a `--[=*[ … ]=*]` comment that spans several lines (over-approximation: also inside strings)
+fn has_multiline_block_comment(code: &str) -> bool {
+    let mut rest = code;
+    while let Some(i) = rest.find("--[") {
+        rest = &rest[i + 3..];
+        let eq = rest.bytes().take_while(|b| *b == b'=').count();
+        if rest.as_bytes().get(eq) == Some(&b'[') {
+            let close = format!("]{}]", "=".repeat(eq));
+            let body = &rest[eq + 1..];
+            let end = body.find(&close).unwrap_or(body.len());
+            if body[..end].contains('\n') {
+                return true;
+            }
+        }
+    }
+    false
+}
+
+/// Regions of the recorded known findings (`known_findings.json`, property C04): an entry with
+/// `"region": {"rule": r, "code_contains": c, "excuses": "all" | "local_function_names"}`
+/// excuses, for pipelines containing rule `r` on programs containing `c`, either every marker or
+/// only the names declared by `local function <name>`. Returns (finding id, excused markers;
+/// `None` = all).
+fn known_region(code: &str, rules: &[String], known: &[Value]) -> Vec<(String, Option<Vec<String>>)> {
+    let mut regions = Vec::new();
+    for k in known {
+        let region = &k["region"];
+        let Some(id) = k["id"].as_str() else { continue };
+        let region_rules: Vec<&str> = match (region["rule"].as_str(), region["rules"].as_array()) {
+            (Some(r), _) => vec![r],
+            (None, Some(rs)) => rs.iter().filter_map(|r| r.as_str()).collect(),
+            _ => continue,
+        };
+        if !rules.iter().any(|r| region_rules.iter().any(|x| r.contains(x))) {
+            continue;
+        }
+        if region["when"].as_str() == Some("multiline_block_comment") && !has_multiline_block_comment(code) {
+            continue;
+        }
+        if let Some(needle) = region["code_contains"].as_str() {
+            let other = region["or_rule"].as_str().map(|o| rules.iter().any(|r| r.contains(o))).unwrap_or(false);
+            if !code.contains(needle) && !other {
+                continue;
+            }
+        }
+        if region["when"].as_str() == Some("method_definition") && !has_method_definition(code) {
+            continue;
+        }
+        if region["when"].as_str() == Some("compound_assignment")
+            && !["+=", "-=", "*=", "/=", "%=", "^=", "..="].iter().any(|op| code.contains(op))
+        {
+            continue;
+        }
+        match region["excuses"].as_str() {
+            Some("local_names") => {
+                let names = find_markers(code)
+                    .into_iter()
+                    .filter(|(m, _)| m.starts_with('v'))
+                    .map(|(m, _)| m)
+                    .collect();
+                regions.push((id.to_owned(), Some(names)));
+            }
+            Some("local_function_names") => {
+                let words: Vec<&str> = code
+                    .split(|c: char| !(c.is_ascii_alphanumeric() || c == '_'))
+                    .filter(|w| !w.is_empty())
+                    .collect();
+                let names = words
+                    .windows(2)
+                    .filter(|w| w[0] == "function" && w[1].starts_with('v'))
+                    .map(|w| w[1].to_owned())
+                    .collect();
+                regions.push((id.to_owned(), Some(names)));
+            }
+            _ => regions.push((id.to_owned(), None)),
+        }
+    }
+    regions
+}
+
+pub fn check_case(
+    acc: &mut Acc,
+    model: &mut Model,
+    code: &str,
+    pipeline: &Pipeline,
+    known: &[Value],
+) -> bool {
+    let config = config_of(&pipeline.rules);
+    let input = json!({"kind": "program", "code": code, "config": config, "shift": pipeline.shift,
+        "pipeline": pipeline.kind});
+    let (out, trace) = match real_process(code, &config) {
+        Ok(x) => x,
+        Err(e) => {
+            acc.hist("case", if e == "panic" { "panic (C12's business)" } else { "not processed (parse/rule error)" });
+            if acc.notes.is_empty() && code.len() < 200 {
+                acc.notes.push(format!("not processed: {:?} with {}: {}", code, config, &e[..e.len().min(300)]));
+            }
+            return false;
+        }
+    };
+    acc.hist("pipeline", pipeline.kind);
+    // (1) state machine correspondence on the transformed tree
+    let enc = match encode_trace(&trace) {
+        Ok(e) => e,
+        Err(e) => {
+            acc.violation(Violation {
+                kind: "correspondence".into(),
+                check: "trace-shape".into(),
+                what: e,
+                input,
+                failing_input_found: false,
+            });
+            return true;
+        }
+    };
+    let regions = known_region(code, &pipeline.rules, known);
+    let all_failures = marker_failures(code, &out, pipeline.shift, recomputes_literals(&pipeline.rules));
+    let excused = |m: &String| regions.iter().any(|(_, names)| names.as_ref().map(|n| n.contains(m)).unwrap_or(true));
+    let failure = all_failures.iter().find(|(m, _)| !excused(m)).map(|(_, what)| what.clone());
+    let region: Option<String> = if failure.is_none() && !all_failures.is_empty() {
+        regions.first().map(|(id, _)| id.clone())
+    } else {
+        None
+    };
+    match model_replay(model, &enc.items) {
+        Err(e) => acc.violation(Violation {
+            kind: "correspondence".into(),
+            check: "model-replay".into(),
+            what: e,
+            input: input.clone(),
+            failing_input_found: false,
+        }),
+        Ok(m) => {
+            if let Some(diff) = compare_run(&out, &enc, &m) {
+                let found = failure.is_some();
+                acc.violation(Violation {
+                    kind: if found { "oracle".into() } else { "correspondence".into() },
+                    check: "trace-replay(rules)".into(),
+                    what: match &failure {
+                        Some(f) if found => format!("{}; and {}", f, diff),
+                        _ => diff,
+                    },
+                    input: input.clone(),
+                    failing_input_found: found,
+                });
+            }
+        }
+    }
+    let (real_checked, real_disp) = real_displaced(&trace);
+    match model_lines(model, &enc.items) {
+        Err(e) => acc.violation(Violation {
+            kind: "correspondence".into(),
+            check: "model-lines".into(),
+            what: e,
+            input: input.clone(),
+            failing_input_found: false,
+        }),
+        Ok(l) => {
+            if (l.checked, l.displaced) != (real_checked, real_disp) {
+                acc.violation(Violation {
+                    kind: "correspondence".into(),
+                    check: "displaced-contents".into(),
+                    what: format!(
+                        "line-bearing contents (checked, displaced): model {:?}, real trace {:?}",
+                        (l.checked, l.displaced),
+                        (real_checked, real_disp)
+                    ),
+                    input: input.clone(),
+                    failing_input_found: false,
+                });
+            }
+            if l.budget && real_disp > 0 {
+                acc.violation(Violation {
+                    kind: "correspondence".into(),
+                    check: "budget_lands instance".into(),
+                    what: format!("budgetOk holds for the trace but {} contents are displaced in the real run", real_disp),
+                    input: input.clone(),
+                    failing_input_found: false,
+                });
+            }
+            acc.hist("hypothesis", match (l.budget, l.monotone) {
+                (true, true) => "budgetOk and monotone",
+                (true, false) => "budgetOk only (kept newline trivia)",
+                (false, _) => "budget fails (some content cannot be on its line)",
+            });
+            if !l.budget {
+                acc.hist("budget failure", &format!("{} / first {}", pipeline.kind, l.first));
+            }
+        }
+    }
+    // (2) oracle
+    let markers_in = find_markers(code).len();
+    let markers_out = find_markers(&out).len();
+    match (&failure, &region) {
+        (Some(f), _) => acc.violation(Violation {
+            kind: "oracle".into(),
+            check: "marker-line".into(),
+            what: format!("{}; output {:?}", f, out),
+            input,
+            failing_input_found: true,
+        }),
+        (None, Some(id)) => acc.hist("case", &format!("markers displaced inside known finding region {}", id)),
+        (None, None) => acc.hist("case", if markers_out == 0 { "no marker survives" } else { "all surviving markers on their line" }),
+    }
+    let nontrivial = markers_out >= 3 && out.lines().count() >= 3 && enc.tokens > 5;
+    acc.case(if nontrivial { Some((code, &config)) } else { None });
+    acc.count("markers_in", markers_in as u64);
+    acc.count("markers_surviving", markers_out as u64);
+    true
+}
+
+const FIXED: &[(&str, &[&str], usize)] = &[
+    ("local v1 = m2(\n  g3,\n  's4'\n)\nreturn v1", &["remove_spaces"], 0),
+    ("m1()\n\n\n-- c\nm2() --[[ x\n y ]] m3()\nm4()", &["remove_spaces"], 0),
+    ("m1()\n\n\n-- c\nm2() --[[ x\n y ]] m3()\nm4()", &["remove_spaces", "remove_comments"], 0),
+    ("if g1 then\n  m2()\nelse\n  m3()\nend\nm4()", &["remove_spaces", "remove_comments", "compute_expression", "remove_unused_if_branch"], 0),
+    ("m1()\nm2()", &["{rule: 'append_text_comment', text: 'hello'}"], 1),
+    ("m1()\nm2()", &["{rule: 'append_text_comment', text: 'a\\nb'}"], 4),
+    ("g1.v2 += m3(\n 1000004)\nm5()", &["remove_spaces", "remove_compound_assignment"], 0),
+    ("local function v1()\n return m2()\nend\nm3(v1)", &["remove_spaces", "convert_local_function_to_assign"], 0),
+    ("for v1 = 1000001,\n 1000002 do\n if g3 then\n continue\n end\n m4()\nend", &["remove_spaces", "remove_continue"], 0),
+];
+
+pub fn run(report: &mut Report, replay: Option<&str>) {
+    let mut model = Model::spawn();
+    let known = known_findings("C04");
+    report.rule = "marker programs: grammar-generated Lua/Luau programs (all statement kinds, calls, tables, functions, \
+        if-expressions, compound assignments, optional type annotations) whose literals/globals/calls are unique markers, laid out \
+        with line breaks in 30-70% of the token gaps plus comments, processed by the real darklua_core::process with retain_lines and \
+        (a) subsets/orders of the 13 default rules, (b) remove_spaces + 1-6 line-neutral rules, (c) append_text_comment at start \
+        (alone, with the default rules, or with line-neutral rules, at a random position). Non-trivial = at least 3 markers survive, \
+        the output has at least 3 lines and more than 5 tokens were written."
+        .to_owned();
+
+    if let Some(path) = replay {
+        let text = std::fs::read_to_string(path).unwrap_or_default();
+        let v: Value = serde_json::from_str(&text).unwrap_or(Value::Null);
+        let input = &v["input"];
+        if let (Some(code), Some(config)) = (input["code"].as_str(), input["config"].as_str()) {
+            // the configuration text is replayed as is
+            let shift = input["shift"].as_u64().unwrap_or(0) as usize;
+            let mut acc = Acc::default();
+            match real_process(code, config) {
+                Ok((out, _)) => {
+                    if let Some(f) = marker_failure(code, &out, shift, config.contains("compute_expression")) {
+                        acc.violation(Violation {
+                            kind: "oracle".into(),
+                            check: "marker-line".into(),
+                            what: format!("{}; output {:?}", f, out),
+                            input: input.clone(),
+                            failing_input_found: true,
+                        });
+                    }
+                }
+                Err(e) => acc.notes.push(format!("replay: {}", e)),
+            }
+            acc.flush(report);
+        }
+        return;
+    }
+
+    // `fork` mixes the state: consecutive seeds must not share thread streams
+    let mut rng = Rng::new(report.seed).fork();
+    let thorough = report.is_thorough();
+    let defaults = default_rule_names();
+    report.notes.push(format!("default rules: {}", defaults.join(", ")));
+
+    // known findings first
+    for f in &known {
+        let id = f["id"].as_str().unwrap_or("?");
+        let w = &f["witness"];
+        if let (Some(code), Some(config)) = (w["code"].as_str(), w["config"].as_str()) {
+            let shift = w["shift"].as_u64().unwrap_or(0) as usize;
+            match real_process(code, config) {
+                Ok((out, _)) => match marker_failure(code, &out, shift, config.contains("compute_expression")) {
+                    Some(what) => {
+                        if w["output_now"].as_str().map(|o| o == out).unwrap_or(true) {
+                            report.known_finding(id, &what);
+                        } else {
+                            report.violation(Violation {
+                                kind: "finding-changed".into(),
+                                check: "known-finding-replay".into(),
+                                what: format!("{}: output is now {:?}", id, out),
+                                input: json!({"kind": "program", "code": code, "config": config, "shift": shift}),
+                                failing_input_found: true,
+                            });
+                        }
+                    }
+                    None => {}
+                },
+                Err(e) => report.notes.push(format!("known finding {} no longer processes: {}", id, e)),
+            }
+        }
+    }
+
+    let mut acc = Acc::default();
+    for (code, rules, shift) in FIXED {
+        let p = Pipeline { kind: "fixed", rules: rules.iter().map(|r| (*r).to_owned()).collect(), shift: *shift };
+        if !check_case(&mut acc, &mut model, code, &p, &known) {
+            acc.notes.push(format!("fixed program not processed: {:?}", code));
+        }
+    }
+    // corpus: `corpus/C04/*.json` = {"code", "rules": [...], "shift"}
+    let corpus_dir = concat!(env!("CARGO_MANIFEST_DIR"), "/../corpus/C04");
+    if let Ok(entries) = std::fs::read_dir(corpus_dir) {
+        let mut paths: Vec<_> = entries.flatten().map(|e| e.path()).collect();
+        paths.sort();
+        for p in paths {
+            if let Ok(text) = std::fs::read_to_string(&p) {
+                if let Ok(v) = serde_json::from_str::<Value>(&text) {
+                    if let (Some(code), Some(rules)) = (v["code"].as_str(), v["rules"].as_array()) {
+                        let p = Pipeline {
+                            kind: "corpus",
+                            rules: rules.iter().filter_map(|r| r.as_str().map(|s| s.to_owned())).collect(),
+                            shift: v["shift"].as_u64().unwrap_or(0) as usize,
+                        };
+                        check_case(&mut acc, &mut model, code, &p, &known);
+                        acc.count("corpus_cases", 1);
+                    }
+                }
+            }
+        }
+    }
+    acc.flush(report);
+
+    let threads = 12usize;
+    let programs_per_thread = if thorough { 10_000 } else { 1_000 };
+    let pipelines_per_program = 3;
+    let seeds: Vec<Rng> = (0..threads).map(|_| rng.fork()).collect();
+    let handles: Vec<_> = seeds
+        .into_iter()
+        .map(|mut rng| {
+            let defaults = defaults.clone();
+            let known = known.clone();
+            std::thread::spawn(move || {
+                let mut local = Acc::default();
+                let mut model = Model::spawn();
+                for _ in 0..programs_per_thread {
+                    let code = gen_marker_program(&mut rng);
+                    for _ in 0..pipelines_per_program {
+                        let p = gen_pipeline(&mut rng, &defaults);
+                        if !check_case(&mut local, &mut model, &code, &p, &known) {
+                            break;
+                        }
+                        if local.samples.is_empty() && code.len() < 160 {
+                            local.sample(json!({"program": code, "rules": p.rules}));
+                        }
+                    }
+                }
+                local
+            })
+        })
+        .collect();
+    for h in handles {
+        h.join().expect("worker thread panicked").flush(report);
+    }
 }
